@@ -2,7 +2,7 @@
    ExtrOcamlBasic only: Z, positive, N, nat stay the extracted inductives. *)
 From Coq Require Import Extraction ExtrOcamlBasic ZArith List.
 From Pico Require Import Base.Res Base.Mach Wire.Wire Small.Bitset Small.FieldNumStr
-  Schema.Types Schema.Scalar Schema.Gen Enc.Enc Dec.Dec Schema.Conv Schema.Interp Schema.Norm Ref.Ref Schema.EncSpec Schema.TDec Schema.RoundTrip.
+  Schema.Types Schema.Scalar Schema.Gen Enc.Enc Dec.Dec Schema.Conv Schema.Interp Schema.Norm Ref.Ref Schema.EncSpec Schema.TDec Schema.RoundTrip Schema.Calls.
 Import ListNotations.
 Extraction Language OCaml.
 
@@ -78,6 +78,11 @@ Definition mx_nested_reader (k : kind) (rep : bool) (field : Z) (outer : bytes) 
   let st2 := if Nat.even (length outer) then fst (dec_single KFixed32 7 st (VInt 0)) else fail 7 ECustom st in
   (pf st, Z.of_nat (length (buf st)), err st, vs, (pf st2, Z.of_nat (length (buf st2)), err st2)).
 
+(* programs of Encoder calls (hand-written custom types): result, reference bytes, well-typedness; nesting depth <= 30 *)
+Definition mx_run_calls (cs : list ecall) : result bytes := run_calls 32 cs [].
+Definition mx_spec_calls (cs : list ecall) : bytes := flat_map (spec_call 32) cs.
+Definition mx_calls_ok (cs : list ecall) : bool := forallb (call_ok 32) cs.
+
 Definition mx_writer_enum (num : Z) (vs : list val) : result bytes := enc_repeated_enum num (map as_int vs) [].
 
 (* picoconv on (seconds, nanos) *)
@@ -88,7 +93,7 @@ Definition mx_enc_duration (d : Z) := enc_duration 1 d [].
 Definition mx_enc_timestamp (sec nsec : Z) := enc_timestamp 1 sec nsec [].
 
 Extraction "model.ml"
-  mx_writer mx_writer_enum mx_reader mx_nested_reader mx_dur_join mx_dur_split mx_time_unix mx_enc_duration mx_enc_timestamp
+  mx_writer mx_writer_enum mx_run_calls mx_spec_calls mx_calls_ok mx_reader mx_nested_reader mx_dur_join mx_dur_split mx_time_unix mx_enc_duration mx_enc_timestamp
   Z.add Z.mul Z.sub Z.opp Z.of_nat Z.to_nat Z.div_eucl Z.eqb Z.ltb Z.compare
   mx_bitset_run mx_fn_string
   mx_gen_all mx_tdec_applies mx_tdec_applies_at mx_rt_applies mx_rt_applies_at mx_rt_ok mx_msg_ok mx_marshal mx_unmarshal mx_zero mx_norm mx_ref_encode mx_ref_decode mx_wf_input
